@@ -1,0 +1,154 @@
+//go:build verif
+
+// Contracts for package server, read by govc (comment lines starting with //@).
+// With the verif tag off this file is not compiled; with it on it only adds pure spec helpers.
+//
+// Properties served:
+//   C19  every HTTP API parameter is copied verbatim into the traceroute parameters or replaced by its
+//        documented default when absent/unparsable; nothing wrapped or truncated; no accepted value crashes.
+//   C17  the skip-private-hops flag reaches params.SkipPrivateHops unchanged.
+//
+// Lines written `// BLOCKED ...` are clauses of the property that govc cannot discharge today because a library
+// call has no (or a too weak) model; they are kept as plain comments so that the file verifies with failed=0.
+// Turn them into `//@` lines once the model named in the comment exists.
+
+package server
+
+import (
+	"strconv"
+	"time"
+
+	"github.com/DataDog/datadog-traceroute/common"
+	"github.com/DataDog/datadog-traceroute/traceroute"
+)
+
+var _ = common.DefaultMinTTL
+var _ traceroute.TracerouteParams
+
+// specPresent: the key was given in the query string with at least one value.
+func specPresent(query map[string][]string, key string) bool {
+	return len(query[key]) > 0
+}
+
+// specStr is the documented meaning of a string parameter: the first value given, verbatim, else the default.
+func specStr(query map[string][]string, key string, def string) string {
+	if specPresent(query, key) {
+		return query[key][0]
+	}
+	return def
+}
+
+// specInt is the documented meaning of an integer parameter: the decimal value of the first value given when
+// that parses, else the default. (Only usable in proofs once strconv.Atoi is modelled as a function of its argument.)
+func specInt(query map[string][]string, key string, def int) int {
+	if specPresent(query, key) {
+		if v, err := strconv.Atoi(query[key][0]); err == nil {
+			return v
+		}
+	}
+	return def
+}
+
+// specBool: likewise for a boolean flag (needs strconv.ParseBool modelled as a function of its argument).
+func specBool(query map[string][]string, key string, def bool) bool {
+	if specPresent(query, key) {
+		if v, err := strconv.ParseBool(query[key][0]); err == nil {
+			return v
+		}
+	}
+	return def
+}
+
+// specTimeout is the documented conversion of the timeout parameter (milliseconds) to a duration.
+func specTimeout(ms int) time.Duration { return time.Duration(ms) * time.Millisecond }
+
+// ---------------------------------------------------------------------------------------------------------
+// getStringParam: complete.
+// ---------------------------------------------------------------------------------------------------------
+
+//@ func getStringParam
+//@ safety C19
+//@ ensures[C19.str.value]    ret0 == specStr(query, key, defaultValue)
+//@ ensures[C19.str.present]  specPresent(query, key) ==> ret0 == query[key][0]
+//@ ensures[C19.str.default]  !specPresent(query, key) ==> ret0 == defaultValue
+//@ modifies nothing
+
+// ---------------------------------------------------------------------------------------------------------
+// getIntParam: no-panic (the values[0] index), the default branch and the selection between "what Atoi
+// returned" and the default are proved. `val` and `err` are the function's own locals (the two results of its
+// single strconv.Atoi call), so int.wire says: key present ==> result is Atoi's value iff Atoi reported no
+// error, else the default. That the call is made on query[key][0] cannot be stated: see BLOCKED.
+// ---------------------------------------------------------------------------------------------------------
+
+//@ func getIntParam
+//@ inline
+//@ safety C19
+//@ ensures[C19.int.wire]     specPresent(query, key) ==> ret0 == (err == nil ? val : defaultValue)
+//@ ensures[C19.int.default]  !specPresent(query, key) ==> ret0 == defaultValue
+//@ modifies nothing
+//@ ensures[C19.int.value]  ret0 == specInt(query, key, defaultValue)
+//   by: strconv.Atoi is "pure-lib (result unconstrained, no heap effect)": every call, including the one in
+//   specInt, yields fresh unrelated values, so the counterexample picks different results for the same string.
+
+// ---------------------------------------------------------------------------------------------------------
+// getBoolParam: as getIntParam, with strconv.ParseBool.
+// ---------------------------------------------------------------------------------------------------------
+
+//@ func getBoolParam
+//@ inline
+//@ safety C19 C17
+//@ ensures[C19+C17.bool.wire]     specPresent(query, key) ==> ret0 == (err == nil ? val : defaultValue)
+//@ ensures[C19+C17.bool.default]  !specPresent(query, key) ==> ret0 == defaultValue
+//@ modifies nothing
+//@ ensures[C19+C17.bool.value]  ret0 == specBool(query, key, defaultValue)
+//   by: strconv.ParseBool is "pure-lib (result unconstrained, no heap effect)", same reason as Atoi.
+
+// ---------------------------------------------------------------------------------------------------------
+// parseTracerouteParams. `query`, `hostname`, `port`, ... are the function's single-assignment locals:
+// query is the value returned by url.Query(), hostname the value returned by query.Get("target"), the others
+// the results of the helper calls (whose contracts above are what the proof uses at the call sites).
+//
+// Proved: error iff the target value obtained is empty; zero params on error; the two string parameters are
+// given entirely in terms of the parsed query map (verbatim or default); each int / bool parameter equals
+// its default when the key is absent and is otherwise exactly the helper's result (field wiring, so no two
+// parameters are swapped or dropped); MinTTL, Delay constants; Timeout conversion; no panic.
+// ---------------------------------------------------------------------------------------------------------
+
+//@ func parseTracerouteParams
+//@ safety C19 C17
+//@ requires[pre.url]           url != nil
+//@ ensures[C19.parse.err]      (ret1 != nil) == (hostname == "")
+//@ ensures[C19.parse.errzero]  ret1 != nil ==> ret0 == (traceroute.TracerouteParams{})
+//@ ensures[C19.parse.host]     ret1 == nil ==> ret0.Hostname == hostname && ret0.Hostname != ""
+//@ ensures[C19.parse.consts]   ret1 == nil ==> ret0.MinTTL == common.DefaultMinTTL && ret0.Delay == common.DefaultDelay && !ret0.TCPSynParisTracerouteMode
+//@ ensures[C19.parse.proto]    ret1 == nil ==> ret0.Protocol == specStr(query, "protocol", common.DefaultProtocol)
+//@ ensures[C19.parse.tcpm]     ret1 == nil ==> ret0.TCPMethod == traceroute.TCPMethod(specStr(query, "tcp-method", common.DefaultTcpMethod))
+//@ ensures[C19.parse.port]     ret1 == nil ==> ret0.Port == port && (!specPresent(query, "port") ==> ret0.Port == common.DefaultPort)
+//@ ensures[C19.parse.queries]  ret1 == nil ==> ret0.TracerouteQueries == tracerouteQueries && (!specPresent(query, "traceroute-queries") ==> ret0.TracerouteQueries == common.DefaultTracerouteQueries)
+//@ ensures[C19.parse.maxttl]   ret1 == nil ==> ret0.MaxTTL == maxTTL && (!specPresent(query, "max-ttl") ==> ret0.MaxTTL == common.DefaultMaxTTL)
+//@ ensures[C19.parse.e2e]      ret1 == nil ==> ret0.E2eQueries == e2eQueries && (!specPresent(query, "e2e-queries") ==> ret0.E2eQueries == common.DefaultNumE2eProbes)
+//@ ensures[C19.parse.timeout]  ret1 == nil ==> ret0.Timeout == specTimeout(timeoutMs) && (!specPresent(query, "timeout") ==> ret0.Timeout == specTimeout(common.DefaultNetworkPathTimeout))
+//@ ensures[C19.parse.v6]       ret1 == nil ==> ret0.WantV6 == wantV6 && (!specPresent(query, "ipv6") ==> ret0.WantV6 == common.DefaultWantV6)
+//@ ensures[C19.parse.rdns]     ret1 == nil ==> ret0.ReverseDns == reverseDns && (!specPresent(query, "reverse-dns") ==> ret0.ReverseDns == common.DefaultReverseDns)
+//@ ensures[C19.parse.pubip]    ret1 == nil ==> ret0.CollectSourcePublicIP == collectSourcePublicIP && (!specPresent(query, "source-public-ip") ==> ret0.CollectSourcePublicIP == common.DefaultCollectSourcePublicIP)
+//@ ensures[C19.parse.windrv]   ret1 == nil ==> ret0.UseWindowsDriver == useWindowsDriver && (!specPresent(query, "windows-driver") ==> ret0.UseWindowsDriver == common.DefaultUseWindowsDriver)
+//@ ensures[C17.parse.skip]     ret1 == nil ==> ret0.SkipPrivateHops == skipPrivateHops && (!specPresent(query, "skip-private-hops") ==> ret0.SkipPrivateHops == common.DefaultSkipPrivateHops)
+//
+// CAVEAT on C19.parse.timeout ("nothing is wrapped"): govc proves it (and even ret0.Timeout == timeoutMs * 1000000
+// over the mathematical integers), i.e. it does not model the int64 wrap-around of `time.Duration(x) * time.Millisecond`.
+// On the real code the product wraps for timeoutMs > 9223372036854: `?target=a&timeout=9223372036855` is accepted
+// and yields Timeout == -9223372036854551616 (replayed with a Go test). So the "not wrapped" part of C19 is NOT
+// established for the timeout parameter; it needs an overflow obligation on that multiplication in govc.
+//
+//@ ensures[C19.parse.err.src]  (ret1 != nil) == (specStr(query, "target", "") == "")
+//@ ensures[C19.parse.host.src]  ret1 == nil ==> ret0.Hostname == query["target"][0]
+//   by: UNMODELLED (net/url.Values).Get -- needed: Get(v, k) == (len(v[k]) > 0 ? v[k][0] : ""), no heap effect, no panic.
+// BLOCKED "query is the decoding of url": nothing relates the local `query` to *url
+//   by: UNMODELLED (*net/url.URL).Query -- needed: requires u != nil; result is a fresh non-nil map that is a
+//   function of u.RawQuery only; no effect on existing objects; no panic. (Both calls currently havoc the heap.)
+//@ ensures[C19.parse.port.value]  ret1 == nil ==> ret0.Port == specInt(query, "port", common.DefaultPort)
+//   (and the same for traceroute-queries, max-ttl, timeout, e2e-queries)
+//   by: strconv.Atoi result unconstrained (see getIntParam).
+//@ ensures[C17.parse.skip.value]  ret1 == nil ==> ret0.SkipPrivateHops == specBool(query, "skip-private-hops", common.DefaultSkipPrivateHops)
+//   (and the same for ipv6, reverse-dns, source-public-ip, windows-driver)
+//   by: strconv.ParseBool result unconstrained (see getBoolParam).
